@@ -101,7 +101,29 @@ def np_namespace(ctx, space):
         if hasattr(x, "_pv_isnan"):
             return x._pv_isnan(ex)
         return mathlib.np_isnan(ex, x)
-    return Namespace("np", concatenate=Native(concatenate, "np.concatenate"), split=Native(split, "np.split"),
+
+    def any_(ex, v):
+        # whether an abstract vector (the value of a user-supplied derivative at some state) has a non-zero entry is not determined by the contract of the
+        # system: both outcomes are explored, independently at every call (the vector at ANOTHER state may well differ)
+        if isinstance(v, (LinVec, Pair)):
+            return bool(ex.ctx.choose(2, "np.any(abstract vector)"))
+        if is_z3(v):
+            return v != 0
+        try:
+            return any(bool(x) for x in v)
+        except TypeError:
+            return bool(v)
+
+    def all_(ex, v):
+        if isinstance(v, (LinVec, Pair)):
+            return bool(ex.ctx.choose(2, "np.all(abstract vector)"))
+        if is_z3(v):
+            return v != 0
+        try:
+            return all(bool(x) for x in v)
+        except TypeError:
+            return bool(v)
+    return Namespace("np", any=Native(any_, "np.any"), all=Native(all_, "np.all"), concatenate=Native(concatenate, "np.concatenate"), split=Native(split, "np.split"),
                      sign=Native(sign, "np.sign"), zeros_like=Native(zeros_like, "np.zeros_like"),
                      isnan=Native(isnan, "np.isnan"), nan=float("nan"), inf=float("inf"))
 
